@@ -1,8 +1,45 @@
 import Demeter.Drv.Json
+import Demeter.TickPrice
 namespace Demeter.Drv
 open Demeter Lean
 
-def tickHandlers : List (String × Handler) := []
+private def exStr {α} (sh : α → String) : Except String α → Except String String
+  | .ok v => .ok (sh v)
+  | .error e => .error e
+
+/-- token protocol of `driver_tick` (arithmetic = CPython: `TickNum.py`):
+    `tickToPrice t d0 d1 q0`, `sqrtToPrice sx d0 d1 q0`, `priceToSqrt price d0 d1 q0`, `priceToSqrtX96 …`,
+    `priceToTick …` (float log computed here), `priceToTickX96 est price d0 d1 q0`, `fac e`, `lg x`, `sqrtAt t` -/
+def tickHandlers : List (String × Handler) := [
+  ("sqrtAt", fun a => do
+    let t ← argInt a 0
+    if !tickOk t then throw "AssertionError" else pure (toString (sqrtAt t))),
+  ("tickToPrice", fun a => do
+    let t ← argInt a 0; let d0 ← argNat a 1; let d1 ← argNat a 2; let q0 ← argBool a 3
+    exStr showRat (tickToPrice TickNum.py t d0 d1 q0)),
+  ("sqrtToPrice", fun a => do
+    let sx ← argNat a 0; let d0 ← argNat a 1; let d1 ← argNat a 2; let q0 ← argBool a 3
+    exStr showRat (sqrtX96ToPrice TickNum.py sx d0 d1 q0)),
+  ("priceToSqrt", fun a => do
+    let p ← argRat a 0; let d0 ← argNat a 1; let d1 ← argNat a 2; let q0 ← argBool a 3
+    exStr showRat (priceToSqrt TickNum.py p d0 d1 q0)),
+  ("priceToSqrtX96", fun a => do
+    let p ← argRat a 0; let d0 ← argNat a 1; let d1 ← argNat a 2; let q0 ← argBool a 3
+    exStr toString (priceToSqrtX96 TickNum.py p d0 d1 q0)),
+  ("priceToTick", fun a => do
+    let p ← argRat a 0; let d0 ← argNat a 1; let d1 ← argNat a 2; let q0 ← argBool a 3
+    exStr toString (priceToTick TickNum.py p d0 d1 q0)),
+  ("priceToTickX96", fun a => do
+    let est ← argInt a 0
+    let p ← argRat a 1; let d0 ← argNat a 2; let d1 ← argNat a 3; let q0 ← argBool a 4
+    exStr toString (priceToTickX96 TickNum.py 64 est p d0 d1 q0)),
+  ("fac", fun a => do
+    let e ← argInt a 0
+    pure (showRat (facPy e))),
+  ("lg", fun a => do
+    let x ← argRat a 0
+    pure (toString (lgPy x)))
+]
 def tickJHandlers : List (String × JHandler) := []
 
 end Demeter.Drv
